@@ -665,9 +665,9 @@ func (w *World) scenarioUndoKinds(h *History, deliver func(*TNode) *Op) {
 			order = append(first, rest...)
 		}
 		for _, wi := range order {
-			w.forceKind, w.forceWallet = kind, wi
+			w.forceKind, w.forceWallet, w.forceZeroOut = kind, wi, kind == 1 && round >= 7
 			t, m, _ := w.genTxs(parent, 1, 0)
-			w.forceKind = 0
+			w.forceKind, w.forceZeroOut = 0, false
 			if len(t) == 1 && int(t[0].Version) == kind {
 				txs, meta = t, m
 				break
